@@ -16,6 +16,8 @@ import (
 // the sample lines of dnsdata/data_test.go followed by boundary shapes; a leading '?'
 // marks a line that makes no claim of being well formed (the '?' is not part of a
 // record type, such lines are rejected with ErrBadRType)
+const nSampleLines = 58
+
 var fixedLines = []string{
 	"%a1,2001:db8::/32,m2",
 	"%\\141b:192.168.1.0/24:c\001",
